@@ -35,6 +35,7 @@ def observe_program(P, givens, seed):
     rows = []
     is_async = rng.random() < 0.3
     mc = rng.randint(1, 4)
+    dbg = pg.has_debug(P) and rng.random() < 0.6       # RUN_DEBUG_NODES during the calls on this object
     d = flat = None
     build_error = None
     try:
@@ -75,10 +76,10 @@ def observe_program(P, givens, seed):
     # they mean the same as calls made one after the other
     turn = None
     if is_async and build_error is None and rng.random() < 0.5:
-        turn = pr.run_real_turn(d, flat, [[pg.encode(x) for x in g] for g in givens], setup_paths)
+        turn = pr.run_real_turn(d, flat, [[pg.encode(x) for x in g] for g in givens], setup_paths, dbg)
     for gi, given in enumerate(givens):
         row = {"given": [pg.encode(x) for x in given], "raised": False, "errclass": "", "val": pg.verr(), "exec": [],
-               "dup": False, "async": is_async, "built": True, "twice": False, "constret": False, "mc": mc, "conc": 0, "loop": 0, "pre": list(pre)}
+               "dup": False, "async": is_async, "built": True, "twice": False, "constret": False, "mc": mc, "conc": 0, "loop": 0, "pre": list(pre), "fresh_same": True, "dbg": dbg}
         if build_error is not None:
             row["built"] = False
             row["twice"] = "already occupied" in str(build_error)
@@ -91,13 +92,13 @@ def observe_program(P, givens, seed):
             r, pre = turn[gi]
             row["pre"], row["conc"] = list(pre), 3
         else:
-            r = pr.run_real(d, flat, row["given"], is_async)
+            r = pr.run_real(d, flat, row["given"], is_async, dbg)
         row.update({k: r[k] for k in ("raised", "errclass", "val", "exec", "dup")})
         if r.get("unknown"):
             row["unknown"] = r["unknown"]
         if r.get("msg"):
             row["msg"] = r["msg"]
-        row["ref"] = pr.plain_call(P, given)
+        row["ref"] = pr.plain_call(P, given, dbg)
         if row["ref"].get("exec") is not None:
             row["ref"]["exec"] = [p for p in row["ref"]["exec"] if p not in pre]
         rows.append(row)
@@ -105,6 +106,14 @@ def observe_program(P, givens, seed):
         # execution itself succeeded and stored them)
         held = {iid for iid in d.results}
         pre = sorted(list(path) for path, iid in flat if list(path) in setup_paths and iid in held)
+    # C15: what the last call returned is what a DAG built afresh from the same program returns for the same arguments
+    if build_error is None and len(rows) >= 2 and turn is None and rng.random() < 0.3:
+        try:
+            d2, flat2 = pr.build(P, lambda k: {}, is_async=is_async, mc=mc)
+            r2 = pr.run_real(d2, flat2, rows[-1]["given"], is_async, dbg)
+            rows[-1]["fresh_same"] = (r2["raised"], r2["val"]) == (rows[-1]["raised"], rows[-1]["val"])
+        except BaseException:  # noqa: BLE001
+            pass
     return rows
 
 
@@ -130,10 +139,10 @@ def plan(tier, seed):
     for _ in range(n_small):
         progs.append(pg.gen_program(rng, nsites=rng.randint(1, 2), nparams=rng.randint(0, 2), max_depth=1))
     for _ in range(n_rand):
-        progs.append(pg.gen_program(rng, nsites=rng.randint(2, 8), max_depth=rng.choice([1, 2, 2, 3])))
+        progs.append(pg.gen_program(rng, nsites=rng.randint(2, 8), max_depth=rng.choice([1, 2, 2, 3]), p_debug=0.2))
     for _ in range(150 if tier == "quick" else 1500):
         # a flagged nested DAG that hands a defaulted parameter straight back, in every return shape
-        progs.append(pg.gen_program(rng, nsites=rng.randint(1, 3), nparams=rng.randint(1, 3), max_depth=rng.choice([1, 2]), focus="flagged-sub"))
+        progs.append(pg.gen_program(rng, nsites=rng.randint(1, 3), nparams=rng.randint(1, 3), max_depth=rng.choice([1, 2]), focus="flagged-sub", p_debug=0.4))
     for _ in range(100 if tier == "quick" else 1000):
         # a nested DAG called with an INDEXED result for a parameter that its body indexes again
         progs.append(pg.gen_program(rng, nsites=rng.randint(0, 2), nparams=rng.randint(0, 2), max_depth=rng.choice([1, 2]), focus="indexed-arg-sub"))
@@ -189,7 +198,15 @@ def run(tier, seed, log=common.say):
                 continue
             row["p"] = idx + 1
             obs.append(row)
+    # the program an observation is judged against: with RUN_DEBUG_NODES off its debug call sites are switched off
     stripped = [pg.strip(P) for P in progs]
+    variants = {}
+    for r in obs:
+        if not r.get("dbg") and pg.has_debug(progs[r["p"] - 1]):
+            if r["p"] not in variants:
+                stripped.append(pg.strip(progs[r["p"] - 1], dbg=False))
+                variants[r["p"]] = len(stripped)
+            r["p"] = variants[r["p"]]
     # TLC: one batch per ~1500 observations, each batch carries the programs it refers to
     os.makedirs(common.CACHE, exist_ok=True)
     batches = [obs[i:i + 1500] for i in range(0, len(obs), 1500)]
@@ -199,7 +216,7 @@ def run(tier, seed, log=common.say):
         used = sorted({r["p"] for r in b})
         remap = {p: k + 1 for k, p in enumerate(used)}
         path = os.path.join(common.CACHE, f"e2-{os.getpid()}-{i}.json")
-        rows = [{"p": remap[r["p"]], **{k: r[k] for k in ("given", "raised", "errclass", "val", "exec", "dup", "async", "built", "twice", "constret", "conc", "loop", "pre")}} for r in b]
+        rows = [{"p": remap[r["p"]], **{k: r[k] for k in ("given", "raised", "errclass", "val", "exec", "dup", "async", "built", "twice", "constret", "conc", "loop", "pre")}, "fresh_same": r.get("fresh_same", True)} for r in b]
         with open(path, "w") as f:
             json.dump({"progs": [stripped[p - 1] for p in used], "obs": rows}, f)
         try:
@@ -280,7 +297,7 @@ def run(tier, seed, log=common.say):
     return res
 
 
-NONTRIVIAL = {"C01": "ineq", "C10": "flagged", "C20": "nested", "C17": "async", "C03": "ineq", "C02": "indexed"}
+NONTRIVIAL = {"C01": "ineq", "C10": "flagged", "C20": "nested", "C17": "async", "C03": "ineq", "C02": "indexed", "C15": "ineq", "C13": "withdebug"}
 
 
 def report(prop, res):
@@ -316,7 +333,7 @@ def report(prop, res):
                    "indexing, unpack_to, operators (also reflected), and_/or_/not_, re-used functions, all return shapes, nested DAGs to depth 3, activation "
                    "flags of every form. Non-trivial: inside the equivalence (the plain body does not raise)"
                    + {"C01": "", "C10": " and the program carries an activation flag", "C20": " and the program calls a nested DAG",
-                      "C17": " and run as AsyncDAG", "C03": "", "C02": " and some value is used through an index path"}[prop],
+                      "C17": " and run as AsyncDAG", "C03": "", "C02": " and some value is used through an index path", "C15": "", "C13": " and the program has debug call sites"}[prop],
            "samples": res["samples"], "exhaustive": False, "programs": res["programs"], "counts": res["counts"],
            "model_run": {k: res["model"][k] for k in ("cases", "states", "transitions", "ok")},
            "violation_counts": {k: n for k, n in res["viol_counts"].items() if k.startswith(prop)},
@@ -336,10 +353,10 @@ def replay(payload, log=common.say):
     P = payload["prog"]
     given = [pg.decode(x) for x in payload["given"]]
     row = {"p": 1, "given": payload["given"], "raised": False, "errclass": "", "val": pg.verr(), "exec": [], "dup": False,
-           "async": payload.get("async", False), "built": True, "twice": False, "constret": False, "conc": 0, "loop": 0, "pre": []}
+           "async": payload.get("async", False), "built": True, "twice": False, "constret": False, "conc": 0, "loop": 0, "pre": [], "fresh_same": True}
     try:
         d, flat = pr.build(P, lambda k: {}, is_async=row["async"], mc=2)
-        r = pr.run_real(d, flat, payload["given"], row["async"])
+        r = pr.run_real(d, flat, payload["given"], row["async"], bool(payload.get("observed", {}).get("dbg")))
         row.update({k: r[k] for k in ("raised", "errclass", "val", "exec", "dup")})
     except BaseException as e:  # noqa: BLE001
         row["built"] = False
